@@ -270,3 +270,17 @@ pub fn panics_to_failure(ps: &[PanicInfo]) -> Result<(), Failure> {
         Err(f)
     }
 }
+
+/// Breaks the reference cycles of a finished simulation when dropped (machine -> tap -> machine, network <-> tap;
+/// elvis-core never frees a machine that was started). Without this a long campaign runs out of memory.
+pub struct ReleaseOnDrop(pub Vec<Arc<Machine>>);
+
+impl Drop for ReleaseOnDrop {
+    fn drop(&mut self) {
+        for m in &self.0 {
+            if let Some(pci) = m.protocol::<pci::Pci>() {
+                pci.verif_release();
+            }
+        }
+    }
+}
